@@ -25,14 +25,14 @@ import (
 // Run by the driver with GODEBUG=efence=1; without it the test still runs (depth sweep only).
 
 //go:noinline
-func efenceRecurse(depth int, pad *[48]byte, f func()) byte {
+func zvEfenceRecurse(depth int, pad *[48]byte, f func()) byte {
 	var local [48]byte
 	local[depth%48] = pad[(depth+1)%48] + 1
 	if depth == 0 {
 		f()
 		return local[0]
 	}
-	return efenceRecurse(depth-1, &local, f) + local[depth%48]
+	return zvEfenceRecurse(depth-1, &local, f) + local[depth%48]
 }
 
 func TestVerifEfenceSM4(t *testing.T) {
@@ -47,10 +47,10 @@ func TestVerifEfenceSM4(t *testing.T) {
 	rng := hk.NewRNG(hk.Seed(), "efence")
 	key := rng.Bytes(16)
 	g := ref.NewGCM(key)
-	for _, asm := range paths() {
+	for _, asm := range zvPaths() {
 		asm := asm
-		withAsm(asm, func() {
-			pn := pathName(asm)
+		zvWithAsm(asm, func() {
+			pn := zvPathName(asm)
 			blk, _ := NewCipher(key)
 			type shape struct {
 				nl, tag, pl int
@@ -61,7 +61,7 @@ func TestVerifEfenceSM4(t *testing.T) {
 				Open(dst, nonce, ciphertext, additionalData []byte) ([]byte, error)
 			}
 			for _, s := range shapes {
-				a, _ := newAEADFromBlock(blk, s.nl, s.tag)
+				a, _ := zvNewAEADFromBlock(blk, s.nl, s.tag)
 				aeads = append(aeads, a)
 			}
 			step := hk.N(3, 1)
@@ -78,7 +78,7 @@ func TestVerifEfenceSM4(t *testing.T) {
 					bad := ""
 					var pad [48]byte
 					p, msg, isFault, addr := hk.Try(func() {
-						efenceRecurse(depth, &pad, func() {
+						zvEfenceRecurse(depth, &pad, func() {
 							var got []byte
 							switch depth % 3 {
 							case 0:
@@ -111,7 +111,7 @@ func TestVerifEfenceSM4(t *testing.T) {
 					r.Violation("call-at-stack-depth-fails:"+pn, hk.D{"depth_frames": depth, "approx_stack_bytes": depth * 112, "what": bad, "shape": fmt.Sprint(s), "efence": os.Getenv("GODEBUG")})
 					break
 				}
-				r.Eval(fmt.Sprintf("%s|depth-sweep|stack~2^%d", pn, bitlenInt(depth*112+2048)))
+				r.Eval(fmt.Sprintf("%s|depth-sweep|stack~2^%d", pn, zvBitlenInt(depth*112+2048)))
 			}
 		})
 	}
